@@ -126,8 +126,9 @@ Definition record_ok (u : N) (p : fpic) (val : sx) (buffer : list N) : bool :=
       && match spec_binary_width (m + n) with Some w' => (w =? w')%nat | None => false end
       && (- 2 ^ (8 * Z.of_nat w - 1) <=? v) && (v <? 2 ^ (8 * Z.of_nat w - 1))
       && list_N_eqb buffer (enc_be w v)
-  | PText _ k _, 4 =>
+  | PText alpha k _, 4 =>
       N.eqb u display_spelling && (length buffer =? k)%nat && forallb (fun b => (b <? 256)%N) buffer
+      && (negb alpha || forallb ebcdic_letter buffer)
   | _, _ => false
   end.
 
